@@ -1,149 +1,10 @@
-(* C23 - proofs about model/ClearChain.v over the regenerated reset table gen/Gen_clear.v *)
+(* C23 - proofs, parts 3-9: the COMMON migration of preserve_commons and the CHAIN theorems *)
 From Coq Require Import ZArith List Bool String Lia Permutation.
 From RecordUpdate Require Import RecordSet.
-From PCB Require Import lib.Result lib.PyInt lib.Harness lib.ClearTable gen.Gen_clear model.ClearChain.
+From PCB Require Import lib.Result lib.PyInt lib.Harness lib.ClearTable gen.Gen_clear model.ClearChain proofs.ClearChain_reset proofs.ClearChain_closed.
 Import ListNotations RecordSetNotations.
 Open Scope Z_scope.
 
-(* ------------------------------------------------------------------------------------------------ *)
-(* Part 1: RUN, CLEAR, NEW - by execution of the regenerated tables on an arbitrary state *)
-
-(* the components the property lists, as a tuple *)
-Definition view_of (s : state) :=
-  (sc_vars s, sc_mem s, sc_current s, (ar_dims s, ar_bufs s, ar_mem s, ar_current s),
-   (ar_base s, ar_base_by_dim s), (ss_strs s, ss_current s), deftype s, functions s,
-   (gosub_stack s, for_stack s, while_stack s),
-   (on_error s, err_handle s, err_resume s, err_num s, err_pos s),
-   (stop_pos s, data_pos s), seed s, (ev_enabled s, ev_gosub s, ev_stopped s, ev_suspend s)).
-
-(* the freshly constructed session with the same memory geometry and program *)
-Definition init_like (s : state) : state :=
-  init_state (m_total s) (m_stack s) (m_code_start s) (m_prog_size s).
-
-Definition is_reset (s : state) : Prop := view_of s = view_of (init_like s).
-
-Ltac run_table_in H := lazy -[Z.leb Z.ltb Z.eqb Z.add Z.sub Z.mul Z.max] in H.
-
-Lemma clear_reset s i m k s' : cmd_clear i m k s = Done s' -> is_reset s'.
-Proof.
-  intro H. destruct i as [i|], m as [m|], k as [k|]; run_table_in H;
-  repeat match type of H with
-         | context [if ?c then _ else _] => destruct c; try discriminate H
-         end;
-  injection H as H; subst s'; reflexivity.
-Qed.
-
-Lemma clear_plain_total s : exists s', cmd_clear None None None s = Done s' /\ is_reset s'
-  /\ m_total s' = m_total s /\ m_stack s' = m_stack s /\ m_prog_size s' = m_prog_size s
-  /\ files s' = files s /\ functions s' = [] /\ run_mode s' = run_mode s.
-Proof. eexists. split; [lazy; reflexivity|]. repeat split. Qed.
-
-Lemma new_reset s : exists s', cmd_new s = Done s' /\ is_reset s' /\ m_prog_size s' = 3
-  /\ run_mode s' = false /\ tron s' = false.
-Proof. eexists. split; [lazy; reflexivity|]. repeat split. Qed.
-
-(* RUN, RUN line, RUN "file"[,R]: whenever it succeeds *)
-Lemma run_reset s j jm f s' : cmd_run j jm f s = Done s' ->
-  is_reset s' /\ run_mode s' = true
-  /\ files s' = (match f with Some (_, true, _) => files s | _ => [] end).
-Proof.
-  intro H. destruct j as [j|], jm, f as [[[fm fr] fn]|]; try destruct fm; try destruct fr;
-    run_table_in H; try discriminate H; injection H as H; subst s'; repeat split.
-Qed.
-
-(* RUN to a missing line raises after everything was cleared *)
-Lemma run_missing_line s j f e s' : cmd_run (Some j) true f s = Raised e s' ->
-  e = err_UNDEFINED_LINE_NUMBER /\ is_reset s'.
-Proof.
-  intro H. destruct f as [[[fm fr] fn]|]; try destruct fm; try destruct fr;
-    run_table_in H; injection H as H1 H2; subst; split; reflexivity.
-Qed.
-
-(* ------------------------------------------------------------------------------------------------ *)
-(* Part 2: CHAIN.  The execution of the regenerated chain_ table (with _clear_all, hold_garbage, rebuild ...)
-   is first brought into closed form, for arbitrary hand-modelled parts h. *)
-
-Definition nonempty {A} (l : list A) : bool := match l with [] => false | _ => true end.
-
-(* after _clear_all(preserve_functions=ALL, preserve_base=kb, preserve_deftype=MERGE) *)
-Definition chain_cleared (a : chain_args) (kb : bool) (s : state) : state :=
-  s <| deftype := if c_merge a then deftype s else repeat 33 26 |>
-    <| sc_vars := [] |> <| sc_mem := [] |> <| sc_current := 0 |>
-    <| ar_dims := [] |> <| ar_bufs := [] |> <| ar_mem := [] |> <| ar_current := 0 |>
-    <| ss_strs := [] |> <| ss_current := stack_start s |>
-    <| ar_base := if kb then ar_base s else None |>
-    <| ar_base_by_dim := if kb then ar_base_by_dim s else false |>
-    <| functions := if c_all a then functions s else [] |>
-    <| stick_on := false |> <| seed := 5228370 |>
-    <| err_num := 0 |> <| err_pos := 0 |> <| err_handle := false |> <| err_resume := false |>
-    <| on_error := None |>
-    <| ev_enabled := [] |> <| ev_gosub := [] |> <| ev_stopped := [] |> <| ev_suspend := false |>
-    <| gosub_stack := [] |> <| for_stack := [] |> <| while_stack := [] |>
-    <| stop_pos := None |> <| data_pos := 0 |>.
-
-(* ... the new program loaded / merged, stacks and pointers cleared *)
-Definition chain_loaded (a : chain_args) (kb : bool) (s : state) : state :=
-  (chain_cleared a kb s) <| m_prog_size := c_new_prog_size a |> <| run_mode := false |>.
-
-Definition gc_on (s : state) : state := s <| m_allow_collect := true |>.
-
-Definition chain_spec (h : handlers) (a : chain_args) (s : state) : out :=
-  if c_delete a && c_to_line_missing a then Raised err_IFC s
-  else if c_protected a && c_merge a then Raised err_IFC s
-  else
-    match h_gather h (deftype s) 0 (c_decls a) with
-    | Ok gs =>
-      match h_gather h (deftype s) 1 (c_decls a) with
-      | Ok ga =>
-        if h_setok h gs (c_cs_order a) && h_setok h ga (c_ca_order a) then
-          let kb := nonempty (c_cs_order a) || nonempty (c_ca_order a) || c_all a in
-          let cs' := if c_all a then map fst (sc_vars s) else c_cs_order a in
-          let ca' := if c_all a then map fst (ar_dims s) else c_ca_order a in
-          let s1 := s <| m_allow_collect := false |> in
-          match h_migrate h cs' ca' s1 with
-          | Ok sv =>
-              if c_file_missing a then Raised err_FILE_NOT_FOUND (gc_on (chain_cleared a kb s1))
-              else
-                let s3 := chain_loaded a kb s1 in
-                if (match c_jumpnum a with Some _ => c_jump_missing a | None => false end)
-                then Raised err_IFC (gc_on s3)
-                else
-                  let s4 := s3 <| run_mode := true |> in
-                  match h_sizes h sv s4 with
-                  | Ok sz =>
-                      if st_cur (sv_store sv) <=? var_start s4 + sz then Raised err_OUT_OF_MEMORY (gc_on s4)
-                      else
-                        let s5 := s4 <| ss_strs := st_strs (sv_store sv) ++ [] |>
-                                     <| ss_current := st_cur (sv_store sv) |> in
-                        match h_restore h sv s5 with
-                        | Done s6 => Done (gc_on s6)
-                        | Raised n s6 => Raised n (gc_on s6)
-                        | Crashed n s6 => Crashed n (gc_on s6)
-                        | Unsupported w => Unsupported w
-                        | NoFuel => NoFuel
-                        end
-                  | Err n => Raised n (gc_on s4)
-                  | Host n => Crashed n (gc_on s4)
-                  | OutOfFuel => Unsupported "sizes"
-                  end
-          | Err n => Raised n (gc_on s1)
-          | Host n => Crashed n (gc_on s1)
-          | OutOfFuel => Unsupported "migrate"
-          end
-        else Unsupported "set order"
-      | Host x => Crashed x s
-      | _ => Unsupported "gather"
-      end
-    | Host x => Crashed x s
-    | _ => Unsupported "gather"
-    end.
-
-Lemma chain_closed_form h a s : cmd_chain_gen h a s = chain_spec h a s.
-Proof.
-  destruct a as [merge all jumpnum jm del tlm prot fm nps decls cs ca].
-  destruct merge, all, jumpnum as [j|], jm, del, tlm, prot, fm, cs as [|c0 cs], ca as [|c1 ca];
-    match goal with |- _ = ?r => vm_cast_no_check (eq_refl r) end.
-Qed.
 
 Lemma chain_closed s a : cmd_chain a s = chain_spec real_handlers a s.
 Proof. apply chain_closed_form. Qed.
@@ -878,7 +739,7 @@ Lemma chain_done_inv a s s' : cmd_chain a s = Done s' ->
     gather (deftype s) 0 (c_decls a) [] = Ok gs /\ gather (deftype s) 1 (c_decls a) [] = Ok ga
     /\ same_set gs (c_cs_order a) = true /\ nodupb (c_cs_order a) = true
     /\ same_set ga (c_ca_order a) = true /\ nodupb (c_ca_order a) = true
-    /\ let kb := nonempty (c_cs_order a) || nonempty (c_ca_order a) || c_all a in
+    /\ let kb := c_all a || (nonempty (c_cs_order a) || nonempty (c_ca_order a)) in
        let cs' := if c_all a then map fst (sc_vars s) else c_cs_order a in
        let ca' := if c_all a then map fst (ar_dims s) else c_ca_order a in
        let s1 := s <| m_allow_collect := false |> in
@@ -890,7 +751,7 @@ Lemma chain_done_inv a s s' : cmd_chain a s = Done s' ->
 Proof.
   rewrite chain_closed. unfold chain_spec. cbn [h_gather h_setok h_migrate h_sizes h_restore real_handlers].
   destruct (c_delete a && c_to_line_missing a); [discriminate|].
-  destruct (c_protected a && c_merge a); [discriminate|].
+  destruct (c_merge a && c_protected a); [discriminate|].
   destruct (gather (deftype s) 0 (c_decls a) []) as [gs| | |]; try discriminate.
   destruct (gather (deftype s) 1 (c_decls a) []) as [ga| | |]; try discriminate.
   destruct (same_set gs (c_cs_order a) && nodupb (c_cs_order a)
@@ -967,7 +828,7 @@ Proof.
   intros H Hnds Hnda Hdims.
   destruct (chain_done_inv _ _ _ H) as (gs & ga & sv & sz & s6 & Hg0 & Hg1 & Hs0 & Hn0 & Hs1 & Hn1 & Hrest).
   cbv zeta in Hrest. destruct Hrest as (Hm & Hsz & Hfit & Hr & ->).
-  set (kb := nonempty (c_cs_order a) || nonempty (c_ca_order a) || c_all a) in *.
+  set (kb := c_all a || (nonempty (c_cs_order a) || nonempty (c_ca_order a))) in *.
   set (cs' := if c_all a then map fst (sc_vars s) else c_cs_order a) in *.
   set (ca' := if c_all a then map fst (ar_dims s) else c_ca_order a) in *.
   set (s1 := s <| m_allow_collect := false |>) in *.
@@ -1191,7 +1052,7 @@ Proof.
   rewrite chain_closed. unfold chain_spec. cbn [h_gather h_setok h_migrate h_sizes h_restore real_handlers].
   intro H.
   destruct (c_delete a && c_to_line_missing a); [discriminate|].
-  destruct (c_protected a && c_merge a); [discriminate|].
+  destruct (c_merge a && c_protected a); [discriminate|].
   destruct (gather (deftype s) 0 (c_decls a) []); try discriminate.
   destruct (gather (deftype s) 1 (c_decls a) []); try discriminate.
   match type of H with context [if ?c then _ else _] => destruct c end; [|discriminate].
